@@ -520,6 +520,23 @@ def _tag(res, backend):
     return res
 
 
+class BackendArray(__import__("numpy").ndarray):
+    """a concrete array that remembers which backend instance produced it (history checks only)"""
+    pyvc_backend = None
+
+    def __array_finalize__(self, obj):
+        self.pyvc_backend = getattr(obj, "pyvc_backend", None)
+
+
+def _tag_concrete(res, backend):
+    import numpy as _np
+    if isinstance(res, _np.ndarray) and res.ndim > 0:
+        out = res.view(BackendArray)
+        out.pyvc_backend = backend
+        return out
+    return res
+
+
 def _foreign_inputs(args, mine, opname, depth=0):
     """inputs of a tensor operation that were produced by ANOTHER backend instance (stale tensors): symbolic tensors by their
     tag, concrete float arrays by a precision that is not the current one (conversions through astensor are exempt)"""
@@ -564,9 +581,12 @@ class TensorLib:
             if native is not None and name in NATIVE_STRUCTURAL and not any(_symbolic(x) for x in a) \
                     and not any(_symbolic(x) for x in k.values()):
                 try:
-                    return native(*a, **k)
+                    res = native(*a, **k)
                 except (ValueError, TypeError, IndexError, KeyError) as e:
                     raise PyRaise(type(e), e.args)
+                if self.eng.policy.get("track_backend_mixing"):
+                    res = _tag_concrete(res, (self.name, self.precision))
+                return res
             if m is None:
                 raise Unsupported(f"tensorlib.{name} has no op contract")
             self.used.add(name)
